@@ -12,8 +12,10 @@ from sa import props as P   # noqa: E402
 all_ids = [json.loads(l)["id"] for l in open(os.path.join(HERE, "properties.jsonl"))]
 PY = "/venv/bin/python"
 checks = []
+CLAIMED = [p for p in all_ids if p in P.PROPS and
+           P.PROPS[p]["explanation"] != "wip"]
 for pid in all_ids:
-    if pid not in P.PROPS:
+    if pid not in CLAIMED:
         continue
     spec = P.PROPS[pid]
     checks.append({
@@ -39,7 +41,7 @@ for pid in all_ids:
     })
 na = []
 for pid in all_ids:
-    if pid in P.PROPS:
+    if pid in CLAIMED:
         continue
     na.append({"property_id": pid,
                "reason": getattr(P, "NOT_APPLICABLE", {}).get(
